@@ -1815,7 +1815,7 @@ def run(ctx: Ctx, replay=None) -> int:
         names += [f"QV.Props.Reflect.{n}" for _, n, _ in ctx.count_obligations(REFLECT[:2]) if n not in private]
         names += [f"QV.Props.C01Lift.{n}" for _, n, _ in ctx.count_obligations(REFLECT[2:3])]
         names += [f"QV.Props.C01Pass.{n}" for _, n, _ in ctx.count_obligations(REFLECT[3:4]) if n != "circ3_ok"]
-        priv = {"circ_inv", "pipe_runs", "pipe_len", "circ2_inv", "pipe2_runs", "pipe2_kinds", "circ3_inv", "pipe3_runs", "pipe3_len"}
+        priv = {"circ_inv", "pipe_runs", "pipe_len", "circ2_inv", "pipe2_runs", "pipe2_kinds", "circ3_inv", "pipe3_runs", "pipe3_len", "circ4_inv", "pipe4_runs", "circ5_inv", "gsA_runs", "gsB_runs", "gsA_len", "gsB_len"}
         names += [f"QV.Props.C01Pipeline.{n}" for _, n, _ in ctx.count_obligations(REFLECT[4:]) if n not in priv]
         ctx.audit(names, ["QuriVerif.Props.C01"] + REFLECT)
         with ctx.timed("correspond"):
